@@ -48,6 +48,134 @@ theorem C17_unclosed (fmt : Fmt) (c0 : Option (List ChnaEntry)) (a0 b0 : Option 
   simp only [readFile, hhead, hfuel, hw]
   rw [readChunks_chunkEnd hh' (by omega) (by omega)]
 
+/-! ### truncated finalised files -/
+
+/-- The finalised file as the reader sees it: a header part `pre` (12 bytes for RIFF, 48 for BW64 including
+the ds64 chunk) that `_read_riff_chunk`/`_read_ds64_chunk` accept exactly when it is complete, followed by
+well-formed chunks: (JUNK,) fmt, constructor chunks, data, late chunks. -/
+theorem closedFile_written (fmt : Fmt) (c0 : Option (List ChnaEntry)) (a0 b0 : Option Bytes) (force : Bool)
+    (ops : List WOp)
+    (hc0 : ChnaOK c0) (hcF : ChnaOK (pendChna c0 ops))
+    (ha0 : BytesOK a0) (haF : BytesOK (pendAxml a0 ops))
+    (hb0 : BytesOK b0) (hbF : BytesOK (pendBext b0 ops))
+    (hdata : (dataOf ops).length < 2 ^ 63) :
+    ∃ (pre : Bytes) (F : List Chunk) (ds : Option Ds64) (ff : Bytes) (sz : Nat),
+      closedFile fmt c0 a0 b0 force ops = pre ++ encAll (F ++ bodyC fmt c0 a0 b0 sz (dataOf ops)
+        (pad (dataOf ops).length) (pendChna c0 ops) (pendAxml a0 ops) (pendBext b0 ops)) ∧
+      (∀ x ∈ F, x.id = idJUNK) ∧
+      (∀ x ∈ F ++ bodyC fmt c0 a0 b0 sz (dataOf ops) (pad (dataOf ops).length) (pendChna c0 ops)
+        (pendAxml a0 ops) (pendBext b0 ops), x.OK ds) ∧
+      (∀ d, ds = some d → d.dataSize = (dataOf ops).length) ∧
+      12 ≤ pre.length ∧
+      (∀ k, pre.length ≤ k → readHead ((closedFile fmt c0 a0 b0 force ops).take k) = .ok (ff, ds, pre.length)) ∧
+      (∀ k, k < pre.length → readHead ((closedFile fmt c0 a0 b0 force ops).take k) = .error .struct) := by
+  obtain ⟨hop, hoc, hoa, hob⟩ := openW_opened fmt c0 a0 b0 force
+  obtain ⟨hrun, hrc, hra, hrb⟩ := runW_opened ops hop
+  rw [hoc] at hrc; rw [hoa] at hra; rw [hob] at hrb
+  simp only [List.nil_append] at hrun
+  have hlay := closeW_layout hrun
+  rw [hrc, hra, hrb] at hlay
+  have hpre := preB_eq hc0 a0 b0
+  have hlate := lateB_eq hcF c0.isSome (truthy a0) (truthy b0) (pendAxml a0 ops) (pendBext b0 ops)
+  have hpl := preB_length_le hc0 ha0 hb0
+  have hll := lateB_length_le c0.isSome (truthy a0) (truthy b0) hcF haF hbF
+  simp only [closedFile]
+  rw [hlay]
+  simp only []
+  generalize hR : riffSizeOf (preB c0 a0 b0) (dataOf ops)
+    (lateB c0.isSome (truthy a0) (truthy b0) (pendChna c0 ops) (pendAxml a0 ops) (pendBext b0 ops)) = R
+  have hRlt : R < 2 ^ 64 := by rw [← hR]; unfold riffSizeOf; omega
+  have hnR : (dataOf ops).length ≤ R := by rw [← hR]; unfold riffSizeOf; omega
+  split
+  · -- BW64
+    generalize hfile : idBW64 ++ (ffff ++ (idWAVE ++ (ds64Chunk R (dataOf ops).length ++ (fmtChunk fmt ++
+      (preB c0 a0 b0 ++ (idData ++ (ffff ++ (dataOf ops ++ (pad (dataOf ops).length ++
+        lateB c0.isSome (truthy a0) (truthy b0) (pendChna c0 ops) (pendAxml a0 ops) (pendBext b0 ops)))))))))) = f
+    have hds : ∀ d, (some (⟨R, (dataOf ops).length, []⟩ : Ds64)) = some d → d.table = [] := by
+      intro d hd; cases hd; rfl
+    have hf : f = (idBW64 ++ (ffff ++ (idWAVE ++ ds64Chunk R (dataOf ops).length))) ++
+        encAll ([] ++ bodyC fmt c0 a0 b0 4294967295 (dataOf ops) (pad (dataOf ops).length) (pendChna c0 ops)
+          (pendAxml a0 ops) (pendBext b0 ops)) := by
+      rw [← hfile, hpre, hlate, fmtChunk_eq]
+      have hffff : le 4 4294967295 = ffff := by decide
+      simp [bodyC, dataC, Chunk.enc, hffff]
+    have hdOK : (dataC 4294967295 (dataOf ops) (pad (dataOf ops).length)).OK (some ⟨R, (dataOf ops).length, []⟩) :=
+      ⟨by simp only [dataC]; decide, by simp only [dataC]; decide, by simp only [dataC]; omega,
+        by simp [effSize, hdrSize, dataC], by simp [dataC, pad_length]⟩
+    have hpl48 : (idBW64 ++ (ffff ++ (idWAVE ++ ds64Chunk R (dataOf ops).length))).length = 48 := by
+      simp [idBW64, ffff, idWAVE, ds64Chunk, idDs64, le_length]
+    refine ⟨_, [], some ⟨R, (dataOf ops).length, []⟩, idBW64, 4294967295, hf, by simp, ?_,
+      by intro d hd; cases hd; rfl, by rw [hpl48]; omega, ?_, ?_⟩
+    · simpa using bodyC_ok _ hds hc0 hcF ha0 haF hb0 hbF hdOK
+    · intro k hk
+      rw [hpl48] at hk ⊢
+      have hfk : f.take k = idBW64 ++ (ffff ++ (idWAVE ++ (ds64Chunk R (dataOf ops).length ++
+          (encAll ([] ++ bodyC fmt c0 a0 b0 4294967295 (dataOf ops) (pad (dataOf ops).length) (pendChna c0 ops)
+            (pendAxml a0 ops) (pendBext b0 ops))).take (k - 48)))) := by
+        rw [hf, List.take_append, List.take_of_length_le (by rw [hpl48]; exact hk), hpl48]; simp
+      exact readHead_bw64 hfk hRlt (by omega)
+    · intro k hk
+      rw [hpl48] at hk
+      exact readHead_bw64_short hfile.symm hk
+  · -- RIFF
+    rename_i hbw
+    have hR32 : R < 2 ^ 32 := by
+      simp at hbw; omega
+    generalize hfile : idRIFF ++ (le 4 R ++ (idWAVE ++ (junkChunk ++ (fmtChunk fmt ++
+      (preB c0 a0 b0 ++ (idData ++ (le 4 (dataOf ops).length ++ (dataOf ops ++ (pad (dataOf ops).length ++
+        lateB c0.isSome (truthy a0) (truthy b0) (pendChna c0 ops) (pendAxml a0 ops) (pendBext b0 ops)))))))))) = f
+    have hds : ∀ d, (none : Option Ds64) = some d → d.table = [] := by intro d hd; cases hd
+    have hf : f = (idRIFF ++ (le 4 R ++ idWAVE)) ++
+        encAll ([junkC] ++ bodyC fmt c0 a0 b0 (dataOf ops).length (dataOf ops) (pad (dataOf ops).length)
+          (pendChna c0 ops) (pendAxml a0 ops) (pendBext b0 ops)) := by
+      rw [← hfile, hpre, hlate, fmtChunk_eq, junkChunk_eq]
+      simp [bodyC, dataC, Chunk.enc]
+    have hdOK : (dataC (dataOf ops).length (dataOf ops) (pad (dataOf ops).length)).OK none :=
+      ⟨by simp only [dataC]; decide, by simp only [dataC]; decide, by simp only [dataC]; omega,
+        by simp [effSize, hdrSize, dataC], by simp [dataC, pad_length]⟩
+    have hpl12 : (idRIFF ++ (le 4 R ++ idWAVE)).length = 12 := by simp [idRIFF, idWAVE, le_length]
+    refine ⟨_, [junkC], none, idRIFF, (dataOf ops).length, hf,
+      by intro x hx; rw [List.mem_singleton.1 hx]; rfl, ?_, (by intro d hd; cases hd), by rw [hpl12]; omega, ?_, ?_⟩
+    · intro c hc
+      rcases List.mem_append.1 hc with h | h
+      · rw [List.mem_singleton.1 h]; exact junkC_ok
+      · exact bodyC_ok _ hds hc0 hcF ha0 haF hb0 hbF hdOK c h
+    · intro k hk
+      rw [hpl12] at hk ⊢
+      have hfk : f.take k = idRIFF ++ (le 4 R ++ (idWAVE ++
+          (encAll ([junkC] ++ bodyC fmt c0 a0 b0 (dataOf ops).length (dataOf ops) (pad (dataOf ops).length)
+            (pendChna c0 ops) (pendAxml a0 ops) (pendBext b0 ops))).take (k - 12))) := by
+        rw [hf, List.take_append, List.take_of_length_le (by rw [hpl12]; exact hk), hpl12]; simp
+      exact readHead_riff hfk (le_length 4 R)
+    · intro k hk
+      rw [hpl12] at hk
+      exact readHead_riff_short hfile.symm (le_length 4 R) hk
+
+/-- **C17 (truncated files).**  For every finalised file the writer model produces (same quantifier as
+`C09_roundtrip`) and every cut position `k` before its end, the reader either rejects the first `k` bytes
+or accepts them with the original format, the original frame count, exactly the original sample bytes, and
+each of chna / axml / bext either absent or identical to what the complete file holds — never another frame
+count, never a partial chunk. -/
+theorem C17_truncation (fmt : Fmt) (c0 : Option (List ChnaEntry)) (a0 b0 : Option Bytes) (force : Bool)
+    (ops : List WOp)
+    (hfmt : FmtOK fmt)
+    (hc0 : ChnaOK c0) (hcF : ChnaOK (pendChna c0 ops))
+    (ha0 : BytesOK a0) (haF : BytesOK (pendAxml a0 ops))
+    (hb0 : BytesOK b0) (hbF : BytesOK (pendBext b0 ops))
+    (hframes : (dataOf ops).length % fmt.blockAlign = 0)
+    (hdata : (dataOf ops).length < 2 ^ 63)
+    (k : Nat) (hk : k < (closedFile fmt c0 a0 b0 force ops).length) :
+    TruncOK ⟨1, fmt.channels, fmt.rate, fmt.bits⟩ ((dataOf ops).length / fmt.blockAlign) (dataOf ops)
+      (effChna c0 (pendChna c0 ops)) (effMeta a0 (pendAxml a0 ops)) (effMeta b0 (pendBext b0 ops))
+      (readFile ((closedFile fmt c0 a0 b0 force ops).take k)) := by
+  obtain ⟨pre, F, ds, ff, sz, hf, hF, hok, hds, hpre, hhead, hshort⟩ :=
+    closedFile_written fmt c0 a0 b0 force ops hc0 hcF ha0 haF hb0 hbF hdata
+  by_cases hkp : k < pre.length
+  · simp only [readFile, hshort k hkp]
+    trivial
+  · simp only [readFile, hhead k (by omega)]
+    exact trunc_body (ff := ff) hfmt hc0 hcF hf hF hok hds hframes (by omega) k (by omega) hk
+
 /-! ### non-vacuity and concrete behaviour of the model on unfinished / truncated files -/
 
 example : (dataOf [.write exData, .setBext (some exBext)]).length < 2 ^ 32 - 1 := by decide
